@@ -195,6 +195,36 @@ func runC15(c *Ctx) {
 			items = append(items, item{cfgs[(i+v+1)%len(cfgs)], d, s.IDs})
 		}
 	}
+	// the same sequences with the word "a" scaled to every size around the powers of two (ids are
+	// byte strings built in buffers; a cap or a truncation only shows at its boundary). The four
+	// slug classes of "a" then share a prefix of that many bytes and differ only behind it.
+	sizes := []int{31, 32, 33, 63, 64, 65, 127, 128, 129, 255, 256, 257, 511, 512, 513, 1023, 1024, 1025, 4095, 4096, 4097}
+	for i, s := range seqs {
+		if len(s.Slugs) < 2 || (!c.Thorough() && i%3 != 0) {
+			continue
+		}
+		n := sizes[i%len(sizes)]
+		for k, w := range []string{strings.Repeat("a", n), strings.Repeat("ab ", n/3+1)[:n], strings.Repeat("\u00e9", n/2) + "a"} {
+			if k > 0 && (i/3+k)%4 != 0 && !c.Thorough() {
+				continue
+			}
+			var b strings.Builder
+			for hi, sl := range s.Slugs {
+				t := slugTexts[sl][0]
+				if strings.HasPrefix(sl, "a") {
+					t = w + t[1:]
+				}
+				if hi%2 == 1 && strings.TrimSpace(t) != "" {
+					b.WriteString("> " + strings.TrimSpace(t) + "\n> ===\n\n")
+				} else if t == "" {
+					b.WriteString("#\n\n")
+				} else {
+					b.WriteString("## " + t + "\n\n")
+				}
+			}
+			items = append(items, item{cfgs[(i+k)%len(cfgs)], b.String(), nil})
+		}
+	}
 	// ---- C2M workload
 	g := newDocGen(c.Rand("docs"))
 	for i := 0; i < c.Pick(6000, 100000); i++ {
